@@ -102,11 +102,16 @@ fn classify(prog: &Program, col: &mut Collector) -> bool {
 /// first-phase sequences: no proof needed
 fn case_phase1<G: CurveTag>(bytes: &[u8], col: &mut Collector) -> Result<(), Failure> {
     let mut ch = Choices::new(bytes);
-    let cfg = GenCfg { max_ops1: 40, max_closures: 0, max_ops2: 0, max_commits: 5, big_gates: 0 , max_terms: 4, wide: false};
+    // most sequences have up to 40 calls, some several hundred
+    let long = ch.chance(10);
+    let cfg = GenCfg { max_ops1: if long { 600 } else { 40 }, max_closures: 0, max_ops2: 0, max_commits: if long { 300 } else { 5 }, big_gates: 0, max_terms: 4, wide: false };
     let prog = gen_program(&mut ch, G::CURVE, &cfg);
     let (p, v) = phase1_calls::<G>(&prog).map_err(|e| Failure::new("C16:panic", format!("constraint-system construction panicked: {}", e), json!({"program": prog.to_json()})))?;
     compare(&prog, &p, &v, "prover", "verifier")?;
     let nt = classify(&prog, col);
+    if p.len() > 100 {
+        col.class("long-sequence(>100 calls)");
+    }
     if nt {
         col.nontrivial(prog.fingerprint());
     }
@@ -213,7 +218,7 @@ pub fn run(tier: &str, seed: u64) -> i32 {
         rep.outcome.merge(replay_corpus("C16", &sub2, &|b, col| dispatch(&sub2, b, col)));
         rep.outcome.merge(search(&sub2, seed, n2, 700, &|b, col| dispatch(&sub2, b, col)));
     }
-    for (c, f) in [("odd-run-of-allocate", 0.05), ("allocate-interleaved-with-gates", 0.05), ("allocation-in-phase2", 0.03), ("open-half-gate-at-switch-then-phase2-allocation", 0.01), ("missing-assignment", 0.01)] {
+    for (c, f) in [("odd-run-of-allocate", 0.05), ("allocate-interleaved-with-gates", 0.05), ("allocation-in-phase2", 0.03), ("open-half-gate-at-switch-then-phase2-allocation", 0.01), ("missing-assignment", 0.01), ("long-sequence(>100 calls)", 0.005)] {
         rep.required_classes.push((c.to_string(), f));
     }
     rep.finish()
